@@ -175,6 +175,7 @@ fn cmd_run(args: &[String]) {
     let mut samples: Vec<Value> = Vec::new();
     let mut stopped_early = false;
     let mut hung = 0u32;
+    let mut aborted_mins = 0u32;
 
     for k in 0..count {
         let index = start + k * stride;
@@ -249,7 +250,14 @@ fn cmd_run(args: &[String]) {
             let n = seen_classes.entry(v.class.clone()).or_insert(0);
             *n += 1;
             if *n == 1 && violations.len() < 3 {
-                let (min_tape, replays) = minimise(&prop, f, tier, &sandbox, r.tape.clone(), &v.class, 300, 20.0);
+                // (a replay gets ten times what the failing run took, at least 10 s)
+                let replay_timeout = (t_run.elapsed().as_secs() * 10).clamp(10, 120);
+                let (min_tape, replays, aborted) = minimise(&prop, f, tier, &sandbox, r.tape.clone(), &v.class, 300, 20.0, replay_timeout);
+                if aborted {
+                    // an abandoned replay may still sit in the sandbox
+                    aborted_mins += 1;
+                    sandbox = make_sandbox_n(100 + aborted_mins);
+                }
                 // decode the minimised run for human readers
                 let rr = run_one(&prop, f, tier, &sandbox, Tape::replay(min_tape.clone()), true, true);
                 violations.push(json!({
@@ -274,7 +282,7 @@ fn cmd_run(args: &[String]) {
     drop(hashes_out);
     let _ = std::env::set_current_dir("/");
     let _ = std::fs::remove_dir_all(&sandbox);
-    for n in 0..4 {
+    for n in (0..4).chain(100..104) {
         let base = if std::path::Path::new("/dev/shm").is_dir() { PathBuf::from("/dev/shm") } else { std::env::temp_dir() };
         let _ = std::fs::remove_dir_all(base.join(format!("bitasim.{}.{}", std::process::id(), n)));
         let _ = std::fs::remove_dir_all(base.join(format!("bitasim.{}", std::process::id())));
